@@ -698,6 +698,9 @@ def val_getitem(it, v, idx, node):
         r = Val(call("elem", v.term, to_term(idx)))
         r.elem_of = v
         r.elem_index = idx
+        if v.pos_of is not None:  # an element of a position array is itself a (scalar) position
+            r.pos_of = v.pos_of
+            r.scalar_pos = True
         it.record("index", "element", [v, idx], {}, node)
         return r
     if is_pyconst(idx):
